@@ -319,3 +319,11 @@ Lemma contract_Swap3' : gate_contract (G_Swap 3). Proof. by_table grid_gates_con
 Lemma Swap3_unitary : forall rho, Cunitary 9 (meval rho (m_swap 3)). Proof. exact (unitary_of _ contract_Swap3'). Qed.
 Lemma contract_CSUM3' : gate_contract (G_CSUM 3). Proof. by_table grid_gates_contract. Qed.
 Lemma CSUM3_unitary : forall rho, Cunitary 9 (meval rho (m_csum 3)). Proof. exact (unitary_of _ contract_CSUM3'). Qed.
+
+(* the repaired CKM gradients of fixes/D14.patch ARE the derivative, for all parameters *)
+Lemma contract_CKM_fixed : gate_contract G_CKM_fixed.
+Proof. apply gate_ok_sound. vm_compute. reflexivity. Qed.
+Lemma contract_CKMdg_fixed : gate_contract G_CKMdg_fixed.
+Proof. apply gate_ok_sound. vm_compute. reflexivity. Qed.
+Lemma CKM_fixed_grad : grad_ok G_CKM_fixed. Proof. exact (grad_of _ contract_CKM_fixed). Qed.
+Lemma CKMdg_fixed_grad : grad_ok G_CKMdg_fixed. Proof. exact (grad_of _ contract_CKMdg_fixed). Qed.
